@@ -27,6 +27,16 @@ QOS = "reliability=reliable history=keep_all"
 MEMBERS = {"ki": {"id": "int", "value": "int"}, "kb": {"id": "int", "value": "other"}, "ks": {"id": "int", "name": "str"}}
 
 
+def esc(x):
+    """`\\s` stands for a blank inside string values, filter parameters and expressions of the `ks` scenarios (op lines are
+    blank-separated); decoded by the dsim extension (x-w2d s-cft / s-write), by Driver/CFilter.lean and by `unesc` here"""
+    return x.replace(" ", "\\s")
+
+
+def unesc(x):
+    return x.replace("\\s", " ")
+
+
 def skeleton(ty, params, expr):
     if ty == "ks":
         topics = [f"x-w2d s-topic t{i} P{i} T" for i in (1, 2, 3)]
@@ -34,7 +44,8 @@ def skeleton(ty, params, expr):
     else:
         topics = [f"topic t{i} P{i} T {ty}" for i in (1, 2, 3)]
         w, rf, rc = f"writer w pub t1 {QOS}", f"reader rf sub2 f {QOS}", f"reader rc sub3 t3 {QOS}"
-    return (["participant P1", "participant P2", "participant P3"] + topics + [f"cft f P2 t2 F {params} {expr}",
+    cft = "x-w2d s-cft" if ty == "ks" else "cft"
+    return (["participant P1", "participant P2", "participant P3"] + topics + [f"{cft} f P2 t2 F {params} {expr}",
             "publisher pub P1", "subscriber sub2 P2", "subscriber sub3 P3", w, rf, rc])
 
 
@@ -71,6 +82,9 @@ class Scenario:
             elif t[0] == "cft" and len(t) >= 7:
                 self.params = [] if t[5] == "-" else t[5].split(",")
                 self.expr = " ".join(t[6:])
+            elif t[:2] == ["x-w2d", "s-cft"] and len(t) >= 8:
+                self.params = [] if t[6] == "-" else [unesc(x) for x in t[6].split(",")]
+                self.expr = unesc(" ".join(t[7:]))
             elif t[0] == "hold":
                 hold = True
             elif t[0] == "coalesce-next":
@@ -114,11 +128,11 @@ class FilterSpec:
     status: 'ok' | 'invalid' (unknown member, no/unsupported operator, missing or ill-typed operand, unsupported member type)"""
     def __init__(self, ty, expr, params):
         self.status, self.why = "invalid", ""
-        m = re.fullmatch(r"\s*([A-Za-z_][A-Za-z0-9_]*)\s*(<=|=)\s*(\S+)\s*", expr)
-        if not m:
+        m = re.fullmatch(r"\s*([A-Za-z_][A-Za-z0-9_]*)\s*(<=|=)(.*)", expr)
+        if not m or not m.group(3).strip():
             self.why = "expression outside `<member> (=|<=) <operand>`"
             return
-        self.member, self.op, rhs = m.group(1), m.group(2), m.group(3)
+        self.member, self.op, rhs = m.group(1), m.group(2), m.group(3).strip()   # blanks AROUND the operand token do not count
         kind = MEMBERS[ty].get(self.member)
         if kind is None:
             self.why = "unknown member"
@@ -152,7 +166,8 @@ class FilterSpec:
         self.status = "ok"
 
     def sat(self, ty, i, v):
-        x = i if self.member == "id" else (int(v) if self.kind == "int" else ("" if v == "%e" else v))
+        # strings are compared exactly as given (blanks included): `v` is the value token of the op line
+        x = i if self.member == "id" else (int(v) if self.kind == "int" else ("" if v == "%e" else unesc(v)))
         return x == self.value if self.op == "=" else x <= self.value
 
 
@@ -232,6 +247,11 @@ def gen_case(r, ctx=None, force=None):
     elif kind == "str":
         pivot = r.choice(STR_POOL)
         p0 = "" if pivot == "%e" else pivot
+        if r.chance(1, 3):
+            # leading / trailing blanks in the parameter: they are part of the value
+            core = p0 or "x"
+            p0 = r.choice([" " + core, core + " ", " " + core + " ", "  " + core, core + "  ", " "])
+            pivot = p0
     else:
         pivot, p0 = 0, "05"
     # the operand: where the value the samples are built around (p0's text) is written
@@ -252,7 +272,7 @@ def gen_case(r, ctx=None, force=None):
         params, rhs = [decoy(), decoy(), p0], "%2"
     elif form == 7:
         params = [decoy()] if r.chance(1, 2) else []
-        rhs = p0 if kind == "int" else f"'{p0}'"
+        rhs = p0 if kind == "int" else f"'{esc(p0)}'"
     elif form == 8:
         rhs = "%" + str(len(params) + r.range(0, 5))                       # beyond the list: rejected
     elif form == 9:
@@ -274,7 +294,7 @@ def gen_case(r, ctx=None, force=None):
             rhs = "%7"
         else:
             params = []
-    ptxt = "-" if not params else ",".join(params)
+    ptxt = "-" if not params else ",".join(esc(x) for x in params)
     if params == [""]:
         ptxt = ","          # `,` = two empty parameters (the only way to write an empty parameter 0)
     expr = gen_expr(r, ty, member, op, rhs)
@@ -297,6 +317,10 @@ def gen_case(r, ctx=None, force=None):
             v = max(I32_MIN, min(I32_MAX, v))
         elif ty == "ks":
             v = r.choice(STR_POOL + ([pivot, pivot + "a", pivot[:-1] or "%e"] if isinstance(pivot, str) and pivot != "%e" else []))
+            if isinstance(pivot, str) and pivot != pivot.strip():
+                core = pivot.strip() or "x"
+                v = r.choice([pivot, pivot, core, " " + core, core + " ", " " + core + " ", v])
+            v = "%e" if v == "" else esc(v)
         else:
             v = r.choice(["05", "00ff", "0102030405"])
         live.add(i)
